@@ -1849,7 +1849,7 @@ BOUNDS = {
     "DSL_REQ, SYMM), then silence. connect(llcp=) in both roles with 11 "
     "general byte shapes and a first LLC frame of 2..3 symbolic octets per SAP; connect as "
     "initiator with an ATR_RES from sense_dep (7 shapes); connect(card=) with 8 command "
-    "sequences",
+    "sequences; added later: a peer that ignores the receive window (RW 1, 2, 15; singly or in one AGF); SNEP client requests of 300 octets whose first fragment the server answers with anything, nothing or a close; I/RR/DISC/CC PDUs from a source address without connection at a listening socket while a thread sits in accept()",
     "thorough": "as quick with: pdu.decode 0..9 octets, aggregates up to 3 sub-PDUs / 9 "
     "octets; dep PDU tails 0..7, raw frames 0..8, ATR tails 0..19; Initiator.exchange with 3 "
     "arbitrary answers; all PSL shapes in activation; Target with 3 arbitrary requests (2 + silence after a first DEP_REQ); llc "
